@@ -94,6 +94,7 @@ func checkC09(e *Engine, r *Report) {
 	r.NotDecided = []string{"equality of the final state with the pristine one (value-level)", "UpdateContainer for a container that already exited (allowed source (d), residual risk)"}
 	r.Assumptions = []string{"the runtime sends StopContainer before RemoveContainer for every container that was created"}
 	checkErrorPolarity(e, r, "R13 error-path undo", pkgTA, pkgBL, pkgRM)
+	checkErrorPropagation(e, r, "R13 error-path undo", pkgTA, pkgBL)
 
 	// ------------------------------------------------------------------ TA release chain
 	taRelease := r.Anchor(pkgTA, "policy.ReleaseResources")
